@@ -52,7 +52,10 @@ def flush_arg(rng, io, k):
     """mptio variant: a flush moves everything finished; it is reached directly or through mpt_stream_poll(POLLOUT)."""
     if not io:
         return {"n": k}
-    return {"n": ALL, "via": rng.choice(["flush", "flush", "poll", "poll0"])}
+    arg = {"n": ALL, "via": rng.choice(["flush", "flush", "poll", "poll0"])}
+    if rng.random() < 0.3:
+        arg["hold"] = rng.choice([1, 2, 3])     # flush calls while the peer is not reading (short writes / EAGAIN)
+    return arg
 
 
 def gen_histories(ck, n, nmsg, io=False):
@@ -67,6 +70,8 @@ def gen_histories(ck, n, nmsg, io=False):
         beh = [{"a": "init", "arg": {"kind": kind, "wcap": wcap, "woff": rng.randrange(wcap) if wcap else 0,
                                       "rcap": rcap, "roff": rng.randrange(rcap) if rcap else 0,
                                       "grow": rng.choice([1, 2, 8, 64, 256])}}]
+        if io and h % 3 == 0:
+            beh[0]["arg"]["sndbuf"] = 2048      # small socket buffer: finished data exceeds what one write takes
         sizes = [1, 1, 2, 3, ALL] if small else [1, 1, 2, 3, 5, 254, 255, 256, ALL]
         style = rng.choice(["bytewise", "mixed", "mixed", "bulk"])
         pend = 0
@@ -135,6 +140,25 @@ def gen_sweep(io=False):
                     for _ in range(len(msgs) + 1):
                         beh.append({"a": "recv", "arg": {"x": 0}})
                     behs.append(beh)
+    return behs
+
+
+def gen_backpressure():
+    """mptio variant: more finished data than the socket takes while the peer does not read (short writes, EAGAIN)."""
+    behs = []
+    for kind in KINDS[:4]:
+        for size in (1500, 3000):
+            beh = [{"a": "init", "arg": {"kind": kind, "wcap": 0, "woff": 0, "rcap": 0, "roff": 0, "grow": 256, "sndbuf": 2048}}]
+            for m in range(5):
+                msg = [((i * 7 + m) % 254) + 1 if (i % 97) else 0 for i in range(size + m)]
+                beh += [{"a": "start", "arg": {"data": msg}}, {"a": "push", "arg": {"n": len(msg)}}, {"a": "end", "arg": {"x": 0}}]
+                if m == 2:
+                    beh.append({"a": "flush", "arg": {"n": ALL, "via": "flush", "hold": 3}})
+            beh.append({"a": "flush", "arg": {"n": ALL, "via": "flush", "hold": 2}})
+            beh.append({"a": "deliver", "arg": {"n": ALL}})
+            for _ in range(6):
+                beh += [{"a": "recv", "arg": {"x": 0}}, {"a": "deliver", "arg": {"n": ALL}}]
+            behs.append(beh)
     return behs
 
 
@@ -210,7 +234,7 @@ def run(tier):
                           "behaviour": beh[: (ev["i"] + 1)] if ev else None, "tlc_tail": tres.out[-1500:]})
     # B2: the same through mptio: struct stream on socket pairs (push/flush/poll/dispatch)
     exe_io = vlib.build_driver("stream_io", ["stream_io.c"], libs=("mptcore", "mptio"))
-    hist_io = gen_sweep(io=True) + gen_histories(ck, cfg["nhist"] // 2, cfg["nmsg"], io=True)
+    hist_io = gen_sweep(io=True) + gen_backpressure() + gen_histories(ck, cfg["nhist"] // 2, cfg["nmsg"], io=True)
     recs3, _ = vlib.run_driver(exe_io, vlib.to_script(hist_io), timeout=1200)
     events3 = vlib.merge_trace(hist_io, recs3)
     for e in events3:
